@@ -669,7 +669,7 @@ def pubkeyhash_to_addr_base58(pubkeyhash, prefix=b'\x00'):
 
     :return str: Base-58 encoded address
     """
-    key = to_bytes(prefix) + to_bytes(pubkeyhash)
+    key = to_bytes(prefix) + (pubkeyhash if isinstance(pubkeyhash, bytes) else to_bytes(pubkeyhash))
     addr256 = key + double_sha256(key)[:4]
     return base58encode(addr256)
 
@@ -699,7 +699,7 @@ def pubkeyhash_to_addr_bech32(pubkeyhash, prefix='bc', witver=0, separator='1', 
     :return str: Bech32 encoded address
     """
 
-    pubkeyhash = list(to_bytes(pubkeyhash))
+    pubkeyhash = list(pubkeyhash if isinstance(pubkeyhash, bytes) else to_bytes(pubkeyhash))
 
     # To simplify and speedup: assume pubkeyhash of size 20, 32 and 40 does not contain witness version and size byte
     if len(pubkeyhash) not in [20, 32, 40]:
